@@ -207,7 +207,7 @@ func C14(c *vk.Ctx) {
 
 	// path equivalence on a small hand-made corpus (the full column registry runs under C01)
 	if c.Shard == 0 {
-		for _, rev := range []int{54460, 54453, 51902, -54460, -51902} {
+		for _, rev := range []int{54460, 54454, 54453, 51903, 51902, -54460, -54454, -51902} {
 			// negative: the same columns without rows (a block with columns and zero rows, as
 			// sent for an INSERT whose input is empty; stateful columns must write nothing)
 			rows := 3
